@@ -12,6 +12,8 @@ def run(ctx):
     facts = ctx.bin
     P = "C10-G"
     gram.g1_whitespace(ctx, g, P)
+    gram.g2_comment(ctx, g, P)      # comments between the tokens of a statement are skipped: the COMMENT rule must match them all
+    gram.g3_comment_eoi(ctx, g, P)
     gram.g4_non_atomic(ctx, g, P)
     gram.g5_name_atomic(ctx, g, P)
     gram.g6_modifiers(ctx, g, P)
